@@ -22,8 +22,11 @@ def run(chk):
     chk.rule("T.rect", "Rect::Contains(Rect) == closed inclusion, Rect::Intersects == closed boxes meet, Rect::IsEmpty == zero or negative "
              "extent, on every weak ordering of the eight coordinates; RectClip64::Execute uses them as: outside -> continue, "
              "inside -> result.emplace_back(path); continue")
+    chk.rule("BOUNDS.minmax", "GetBounds (behind the bounding-box shortcuts) updates min and max with every vertex, the first one included")
     chk.rule("T.location", "GetLocation(rec, pt, loc): strictly inside -> true/Inside; on the boundary -> false and an edge the point lies on; "
              "outside -> true and a side the point lies beyond; all 25 weak orderings")
+    chk.rule("T.side-algebra", "GetAdjacentLocation, HeadingClockwise, AreOpposites and the step / verdict of StartLocsAreClockwise equal the arithmetic of "
+             "the clockwise cycle Left->Top->Right->Bottom on the whole four-element domain (61 cells)")
     chk.rule("SCAN.start", "the segment scan of RectClip64::ExecuteInternal starts at index 0 (the closing segment) on every path")
     chk.rule("LOOP", "nothing written while clipping one path is read while clipping the next ('path by path')")
     chk.rule("CLEAN", "RectClip64's scratch containers are empty again at every normal exit of Execute")
@@ -31,6 +34,8 @@ def run(chk):
         db = AstDB(cfg)
         e3.rect_shortcuts(db, chk, cfg)
         e3.location_table(db, chk, cfg)
+        e3.bounds_update_table(db, chk, cfg)
+        e3.side_algebra_tables(db, chk, cfg)
         e3.scan_start_rule(db, chk, cfg, "RectClip64::ExecuteInternal", 0)
         eng = e2.E2(db, chk, cfg, ["RectClip64", "RectClipLines64"])
         e2.check_classification(eng, RECT, chk, "RectClip64")
